@@ -460,7 +460,7 @@ def check_unit(ctx, d, name, text, lang, plat, stmts, szt, nums, dbg=None, use_p
                     % (lang, plat.name, plat.triple, ntext, lines[line - 1].strip(), q, rt, ct, ', '.join(map(str, optypes))))
             if dbg is not None:
                 dbg.append((opdesc(n), tuple(optypes), q, ct, plat.name, lang, ntext))
-            ctx.violation(keyof(ntext, plat.name, lang), what, files={name: text},
+            exprcmp.report(ctx, keyof(ntext, plat.name, lang), what, files={name: text},
                           cmd='cppcheck --dump -q --language=%s %s %s   # line %d, token at column %d' % (
                               lang, parg if not plat.generated else '--platform=<generated %s.xml>' % plat.name,
                               name, line, n.pos[1]))
